@@ -6,9 +6,20 @@ sources on every check.
   TimerQueue_floor_is_lt : the comparison is `<` on the local `microseconds`
   TimerQueue_getExpired_sentry_is_now : the first constructor argument of `sentry` in
       TimerQueue::getExpired is the parameter `now` itself (not an expression computed from it)
+  guards (DESIGN 4.1), translated from the if-conditions of the current source and linked to the
+  model by coq/C06_GenTie.v (a flipped comparison / dropped conjunct breaks the link lemma):
+  TimerQueue_insert_earliest empty when first      : `it == timers_.end() || when < it->first` in insert
+  TimerQueue_reset_reinsert repeat in_canceling    : `it.second->repeat() && cancelingTimers_.find(timer) == end` in reset
+  Timestamp_valid us, Timestamp_default_us         : Timestamp::valid(), Timestamp()
+  TimerQueue_cancelInLoop_found / _else_marks      : `it != activeTimers_.end()`, `else if (callingExpiredTimers_)`
+  and structure facts (booleans, canonical text echoed as comments): what the guarded branches do
+  (restart+insert / delete; nextExpire = head expiration; re-arm iff valid; addTimerInLoop re-arms iff
+  insert reported a new earliest; insert files the timer under (expiration, ptr) and (ptr, sequence);
+  cancelInLoop looks the id up by (ptr, sequence), erases both entries and deletes).
 What cannot be matched falls back to the committed value and prints a FALLBACK line (the check
-then reports a broken generated-fact obligation)."""
-import os, sys
+then reports a broken generated-fact obligation); guards and structure facts that cannot be read
+are OMITTED, so the link lemmas stop compiling (fail closed)."""
+import os, sys, re
 sys.path.insert(0, os.path.dirname(os.path.abspath(__file__)))
 import cxxast
 
@@ -61,6 +72,402 @@ def sentry_fact():
     raise cxxast.Untranslatable("no `Entry sentry(...)` in getExpired")
 
 
+# ------------------------------------------------------------------ canonical text of expressions / statements
+def kids(n):
+    return [c for c in n.get("inner", []) or [] if isinstance(c, dict) and c.get("kind")]
+
+
+def is_assert(n):
+    return any(m.get("kind") == "DeclRefExpr" and (m.get("referencedDecl", {}) or {}).get("name") == "__assert_fail"
+               for m in cxxast.walk(n))
+
+
+def opname(call):
+    ks = kids(call)
+    c = cxxast.strip(ks[0]) if ks else {}
+    nm = (c.get("referencedDecl", {}) or {}).get("name", "")
+    return nm[len("operator"):] if nm.startswith("operator") else None
+
+
+class Canon:
+    """Canonical one-line text of an expression: implicit casts, copies, `this->` and the names of local
+    variables that are initialised once and never assigned again are removed (such a local is replaced
+    by its initialiser), so renaming `it` or introducing a temporary does not change the text."""
+
+    def __init__(self, fn):
+        self.env, self.range_vars = {}, set()
+        b = cxxast.body(fn)
+        assigned = set()
+        for n in cxxast.walk(b):
+            k = n.get("kind")
+            if k in ("BinaryOperator", "CompoundAssignOperator") and n.get("opcode", "").endswith("=") \
+               and n.get("opcode") not in ("==", "!=", "<=", ">="):
+                l = cxxast.strip(kids(n)[0])
+                if l.get("kind") == "DeclRefExpr":
+                    assigned.add(l["referencedDecl"]["name"])
+            elif k == "UnaryOperator" and n.get("opcode") in ("++", "--"):
+                l = cxxast.strip(kids(n)[0])
+                if l.get("kind") == "DeclRefExpr":
+                    assigned.add(l["referencedDecl"]["name"])
+            elif k == "CXXOperatorCallExpr" and opname(n) in ("=", "++", "--", "+=", "-="):
+                l = cxxast.strip(kids(n)[1])
+                if l.get("kind") == "DeclRefExpr":
+                    assigned.add(l["referencedDecl"]["name"])
+        for n in cxxast.walk(b):
+            if n.get("kind") == "VarDecl" and kids(n) and n.get("name") and n["name"] not in assigned:
+                init = kids(n)[-1]
+                i0 = cxxast.strip(init)
+                if n["name"].startswith("__"):
+                    continue
+                if i0.get("kind") == "CXXOperatorCallExpr" and opname(i0) == "*" and "__begin" in json_names(i0):
+                    self.range_vars.add(n["name"])
+                    continue
+                self.env.setdefault(n["name"], init)
+
+    def c(self, node, depth=0):
+        if depth > 40:
+            raise cxxast.Untranslatable("expression too deep")
+        node = cxxast.strip(node)
+        k = node.get("kind")
+        d = depth + 1
+        if k in ("CXXConstructExpr", "CXXTemporaryObjectExpr"):
+            args = [a for a in kids(node) if a.get("kind") != "CXXDefaultArgExpr"]
+            if len(args) == 1:
+                return self.c(args[0], d)
+            ty = node.get("type", {}).get("qualType", "?").split("::")[-1]
+            return "%s(%s)" % (ty, ", ".join(self.c(a, d) for a in args))
+        if k == "DeclRefExpr":
+            rd = node.get("referencedDecl", {}) or {}
+            nm = rd.get("name", "?")
+            if rd.get("kind") == "VarDecl" and nm in self.range_vars:
+                return "elem"
+            if rd.get("kind") == "VarDecl" and nm in self.env:
+                return self.c(self.env[nm], d)
+            return nm
+        if k == "CXXThisExpr":
+            return "this"
+        if k == "MemberExpr":
+            ks = kids(node)
+            if not ks or cxxast.strip(ks[0]).get("kind") == "CXXThisExpr":
+                return node.get("name", "?")
+            return self.c(ks[0], d) + ("->" if node.get("isArrow") else ".") + node.get("name", "?")
+        if k == "CXXMemberCallExpr":
+            ks = kids(node)
+            return "%s(%s)" % (self.c(ks[0], d), ", ".join(self.c(a, d) for a in ks[1:] if a.get("kind") != "CXXDefaultArgExpr"))
+        if k == "CXXOperatorCallExpr":
+            op, args = opname(node), kids(node)[1:]
+            if op == "->" and len(args) == 1:
+                return self.c(args[0], d)
+            if len(args) == 1:
+                return "%s%s" % (op, self.c(args[0], d))
+            if len(args) == 2:
+                return "(%s %s %s)" % (self.c(args[0], d), op, self.c(args[1], d))
+            raise cxxast.Untranslatable("operator call with %d arguments" % len(args))
+        if k == "CallExpr":
+            ks = kids(node)
+            return "%s(%s)" % (self.c(ks[0], d), ", ".join(self.c(a, d) for a in ks[1:] if a.get("kind") != "CXXDefaultArgExpr"))
+        if k == "BinaryOperator":
+            a, b = kids(node)
+            return "(%s %s %s)" % (self.c(a, d), node.get("opcode"), self.c(b, d))
+        if k == "UnaryOperator":
+            return "%s%s" % (node.get("opcode"), self.c(kids(node)[0], d))
+        if k == "IntegerLiteral":
+            return str(node.get("value"))
+        if k == "CXXBoolLiteralExpr":
+            return "true" if node.get("value") else "false"
+        if k == "CXXDeleteExpr":
+            return "delete " + self.c(kids(node)[0], d)
+        raise cxxast.Untranslatable("expression kind %s" % k)
+
+    def stmts(self, node):
+        """canonical list of the statements of a (compound) statement; asserts, (void)x and
+        declarations without side effects are skipped"""
+        out = []
+        seq = kids(node) if node.get("kind") == "CompoundStmt" else [node]
+        for st in seq:
+            k = st.get("kind")
+            if k in ("NullStmt",) or (k not in ("CompoundStmt", "IfStmt", "CXXForRangeStmt", "DeclStmt") and is_assert(st)):
+                continue
+            if k == "CStyleCastExpr" and st.get("type", {}).get("qualType") == "void":
+                continue
+            if k == "CompoundStmt":
+                out += self.stmts(st)
+            elif k == "DeclStmt":
+                for v in kids(st):
+                    if v.get("kind") == "VarDecl" and kids(v):
+                        init = cxxast.strip(kids(v)[-1])
+                        if any(m.get("kind") in ("CXXMemberCallExpr", "CallExpr", "CXXDeleteExpr") and
+                               callee_short(m) in ("erase", "insert", "restart", "resetTimerfd")
+                               for m in cxxast.walk(init)):
+                            out.append("decl = " + self.c(init))
+            elif k == "IfStmt":
+                ks = kids(st)
+                cond, then = ks[0], ks[1]
+                els = ks[2] if len(ks) > 2 else None
+                out.append("if (%s) {%s}%s" % (self.c(cond), "; ".join(self.stmts(then)),
+                                               (" else {%s}" % "; ".join(self.stmts(els))) if els is not None else ""))
+            elif k == "ReturnStmt":
+                out.append("return " + (self.c(kids(st)[0]) if kids(st) else ""))
+            elif k == "CXXForRangeStmt":
+                out.append("for (elem : %s) {%s}" % (self.range_of(st), "; ".join(self.stmts(kids(st)[-1]))))
+            else:
+                out.append(self.c(st))
+        return out
+
+    def range_of(self, forstmt):
+        for v in cxxast.walk(forstmt):
+            if v.get("kind") == "VarDecl" and v.get("name", "").startswith("__range") and kids(v):
+                return self.c(kids(v)[-1])
+        return "?"
+
+
+def json_names(n):
+    return " ".join((m.get("referencedDecl", {}) or {}).get("name", "") for m in cxxast.walk(n) if m.get("kind") == "DeclRefExpr")
+
+
+def callee_short(call):
+    ks = kids(call)
+    if not ks:
+        return None
+    c = cxxast.strip(ks[0])
+    return c.get("name") or (c.get("referencedDecl", {}) or {}).get("name")
+
+
+def timestamp_cmp(op):
+    """the integer comparison muduo::operator<op>(Timestamp, Timestamp) performs on microSecondsSinceEpoch()"""
+    for d in cxxast.dump("muduo/base/Timestamp.h", "muduo::operator" + op):
+        for n in cxxast.walk(d):
+            if n.get("kind") == "FunctionDecl" and n.get("name") == "operator" + op and \
+               n.get("type", {}).get("qualType", "").replace(" ", "").startswith("bool(muduo::Timestamp,muduo::Timestamp)"):
+                ps = [p.get("name") for p in kids(n) if p.get("kind") == "ParmVarDecl"]
+                for r in cxxast.find(n, "ReturnStmt"):
+                    e = cxxast.strip(kids(r)[0])
+                    if e.get("kind") == "BinaryOperator":
+                        sides = []
+                        for x in kids(e):
+                            x = cxxast.strip(x)
+                            if x.get("kind") != "CXXMemberCallExpr" or callee_short(x) != "microSecondsSinceEpoch":
+                                raise cxxast.Untranslatable("Timestamp operator%s is not a comparison of microSecondsSinceEpoch()" % op)
+                            sides.append(json_names(x).strip())
+                        if sides == ps:
+                            return e["opcode"]
+                        if sides == ps[::-1]:
+                            return {"<": ">", ">": "<", "<=": ">=", ">=": "<=", "==": "==", "!=": "!="}[e["opcode"]]
+    raise cxxast.Untranslatable("muduo::operator%s(Timestamp, Timestamp) not found" % op)
+
+
+ZCMP = {"<": "Z.ltb", "<=": "Z.leb", ">": "Z.gtb", ">=": "Z.geb", "==": "Z.eqb"}
+
+
+class Guard:
+    """Gallina text of a boolean condition over named atoms.
+    zatoms: canonical text -> Z variable; batoms: canonical text -> bool variable;
+    iters: canonical text of an iterator expression -> (bool variable, value when compared == end())"""
+
+    def __init__(self, canon, zatoms, batoms, iters):
+        self.cn, self.z, self.b, self.it = canon, zatoms, batoms, iters
+        self.used = {}
+
+    def var(self, name, ty):
+        self.used[name] = ty
+        return name
+
+    def zt(self, node):
+        s = self.cn.c(node)
+        if s in self.z:
+            return self.var(self.z[s], "Z")
+        n = cxxast.strip(node)
+        if n.get("kind") == "IntegerLiteral":
+            return "(%d)" % int(n["value"])
+        raise cxxast.Untranslatable("integer operand `%s`" % s)
+
+    def bt(self, node):
+        n = cxxast.strip(node)
+        s = self.cn.c(n)
+        if s in self.b:
+            return self.var(self.b[s], "bool")
+        k = n.get("kind")
+        if k == "BinaryOperator" and n.get("opcode") in ("&&", "||"):
+            a, b = kids(n)
+            return "(%s %s %s)%%bool" % (self.bt(a), n["opcode"], self.bt(b))
+        if k == "UnaryOperator" and n.get("opcode") == "!":
+            return "(negb %s)" % self.bt(kids(n)[0])
+        if k == "CXXOperatorCallExpr" and opname(n) in ("==", "!=", "<", "<=", ">", ">="):
+            op = opname(n)
+            a, b = kids(n)[1:]
+            sa, sb = self.cn.c(a), self.cn.c(b)
+            for (x, y) in ((sa, sb), (sb, sa)):
+                m = re.match(r"^(\w+)\.end\(\)$", y)
+                if m and x in self.it and op in ("==", "!=") and x.startswith(m.group(1) + "."):
+                    v, at_end = self.it[x]
+                    t = self.var(v, "bool")
+                    pos = at_end if op == "==" else (not at_end)
+                    return t if pos else "(negb %s)" % t
+            if "muduo::Timestamp" in cxxast.strip(kids(n)[0]).get("type", {}).get("qualType", ""):
+                iop = timestamp_cmp(op)
+                if iop == "!=":
+                    return "(negb (Z.eqb %s %s))" % (self.zt(a), self.zt(b))
+                return "(%s %s %s)" % (ZCMP[iop], self.zt(a), self.zt(b))
+            raise cxxast.Untranslatable("comparison `%s`" % s)
+        if k == "BinaryOperator" and n.get("opcode") in ZCMP:
+            a, b = kids(n)
+            return "(%s %s %s)" % (ZCMP[n["opcode"]], self.zt(a), self.zt(b))
+        raise cxxast.Untranslatable("condition `%s`" % s)
+
+
+def definition(name, g, body, order):
+    if sorted(g.used) != sorted(order):
+        raise cxxast.Untranslatable("%s: variables %s, expected %s" % (name, sorted(g.used), sorted(order)))
+    return "Definition %s %s : bool :=\n  %s." % (name, " ".join("(%s : %s)" % (v, g.used[v]) for v in order), body)
+
+
+def first_if(node, pred):
+    for n in cxxast.walk(node):
+        if n.get("kind") == "IfStmt" and pred(n):
+            return n
+    raise cxxast.Untranslatable("if-statement not found")
+
+
+KEY_RESET = "ActiveTimer(elem.second, elem.second->sequence())"
+KEY_CANCEL = "ActiveTimer(timerId.timer_, timerId.sequence_)"
+
+
+def guard_facts():
+    """-> (list of output lines, list of messages)"""
+    out, msgs = [], []
+
+    def attempt(label, f):
+        try:
+            out.extend(f())
+        except Exception as e:  # noqa
+            msgs.append("FALLBACK %s (%s)" % (label, clean(str(e))))
+            out.append("(* FALLBACK %s: %s -- definitions omitted *)" % (label, clean(str(e))))
+
+    def boolfact(name, ok, echo):
+        return ["(* %s *)" % clean(echo), "Definition %s : bool := %s." % (name, "true" if ok else "false")]
+
+    # ---- TimerQueue::insert
+    def f_insert():
+        fn = cxxast.function_decl(REL, "TimerQueue::insert")
+        cn = Canon(fn)
+        iff = first_if(fn, lambda n: any(m.get("kind") == "BinaryOperator" and m.get("opcode") == "=" and
+                                         cxxast.strip(kids(m)[0]).get("kind") == "DeclRefExpr" and
+                                         cxxast.strip(kids(m)[1]).get("kind") == "CXXBoolLiteralExpr"
+                                         for m in cxxast.walk(kids(n)[1])))
+        g = Guard(cn, {"timer->expiration()": "when", "timers_.begin()->first": "first"}, {},
+                  {"timers_.begin()": ("empty", True)})
+        body = g.bt(kids(iff)[0])
+        res = ["(* %s: if (%s) *)" % (REL, clean(cxxast.src_text(kids(iff)[0], REL))),
+               definition("TimerQueue_insert_earliest", g, body, ["empty", "when", "first"])]
+        st = cn.stmts(cxxast.body(fn))
+        flagvar = cxxast.strip(kids([m for m in cxxast.walk(kids(iff)[1]) if m.get("kind") == "BinaryOperator" and m.get("opcode") == "="][0])[0])["referencedDecl"]["name"]
+        inits = [v for v in cxxast.find(cxxast.body(fn), "VarDecl", flagvar)]
+        init_false = bool(inits) and kids(inits[0]) and cn.c(kids(inits[0])[-1]) == "false"
+        nassign = sum(1 for m in cxxast.walk(cxxast.body(fn)) if m.get("kind") == "BinaryOperator" and m.get("opcode") == "=" and
+                      cxxast.strip(kids(m)[0]).get("kind") == "DeclRefExpr" and cxxast.strip(kids(m)[0])["referencedDecl"]["name"] == flagvar)
+        ok = init_false and nassign == 1 and st[-1] == "return " + flagvar and \
+            cn.stmts(kids(iff)[1]) == ["(%s = true)" % flagvar] and len(kids(iff)) == 2
+        res += boolfact("TimerQueue_insert_returns_guard", ok, "insert: flag initialised false, set only under the guard, returned: " + " ;; ".join(st))
+        both = "decl = timers_.insert(Entry(timer->expiration(), timer))" in st and \
+               "decl = activeTimers_.insert(ActiveTimer(timer, timer->sequence()))" in st
+        res += boolfact("TimerQueue_insert_files_both", both, "insert files (expiration, ptr) and (ptr, sequence)")
+        return res
+    attempt("TimerQueue_insert", f_insert)
+
+    # ---- TimerQueue::addTimerInLoop
+    def f_add():
+        fn = cxxast.function_decl(REL, "TimerQueue::addTimerInLoop")
+        cn = Canon(fn)
+        st = [x for x in cn.stmts(cxxast.body(fn)) if "assertInLoopThread" not in x]
+        ok = st == ["decl = insert(timer)", "if (insert(timer)) {resetTimerfd(timerfd_, timer->expiration())}"]
+        return boolfact("TimerQueue_addTimerInLoop_rearms_iff_earliest", ok, "addTimerInLoop: " + " ;; ".join(st))
+    attempt("TimerQueue_addTimerInLoop", f_add)
+
+    # ---- TimerQueue::reset
+    def f_reset():
+        fn = cxxast.function_decl(REL, "TimerQueue::reset")
+        cn = Canon(fn)
+        iff = first_if(fn, lambda n: any(m.get("kind") == "CXXDeleteExpr" for m in cxxast.walk(n)))
+        g = Guard(cn, {}, {"elem.second->repeat()": "repeat"}, {"cancelingTimers_.find(%s)" % KEY_RESET: ("in_canceling", False)})
+        body = g.bt(kids(iff)[0])
+        res = ["(* %s: if (%s) *)" % (REL, clean(cxxast.src_text(kids(iff)[0], REL))),
+               definition("TimerQueue_reset_reinsert", g, body, ["repeat", "in_canceling"])]
+        then = cn.stmts(kids(iff)[1])
+        els = cn.stmts(kids(iff)[2]) if len(kids(iff)) > 2 else []
+        res += boolfact("TimerQueue_reset_then_restart_insert", then == ["elem.second->restart(now)", "insert(elem.second)"], "reset, guard true: " + " ;; ".join(then))
+        res += boolfact("TimerQueue_reset_else_delete", els == ["delete elem.second"], "reset, guard false: " + " ;; ".join(els))
+        st = cn.stmts(cxxast.body(fn))
+        loop_ok = bool(st) and st[0].startswith("for (elem : expired) {if (")
+        tail = st[1:]
+        nv = [v for v in cxxast.find(cxxast.body(fn), "VarDecl", "nextExpire")]
+        default_ctor = bool(nv) and cxxast.strip(kids(nv[0])[-1]).get("kind") == "CXXConstructExpr" and not kids(cxxast.strip(kids(nv[0])[-1]))
+        ok_tail = tail == ["if (!timers_.empty()) {(nextExpire = timers_.begin()->second->expiration())}",
+                           "if (nextExpire.valid()) {resetTimerfd(timerfd_, nextExpire)}"]
+        res += boolfact("TimerQueue_reset_rearms_head_iff_valid", loop_ok and default_ctor and ok_tail,
+                        "reset, after the loop (nextExpire default-constructed: %s): %s" % (default_ctor, " ;; ".join(tail)))
+        return res
+    attempt("TimerQueue_reset", f_reset)
+
+    # ---- Timestamp::valid, Timestamp()
+    def f_valid():
+        res = []
+        fn = None
+        for d in cxxast.dump("muduo/base/Timestamp.h", "muduo::Timestamp::valid"):
+            for n in cxxast.walk(d):
+                if n.get("kind") == "CXXMethodDecl" and n.get("name") == "valid" and any(c.get("kind") == "CompoundStmt" for c in kids(n)):
+                    fn = n
+        if fn is None:
+            raise cxxast.Untranslatable("Timestamp::valid not found")
+        cn = Canon(fn)
+        rets = list(cxxast.find(fn, "ReturnStmt"))
+        g = Guard(cn, {"microSecondsSinceEpoch_": "us"}, {}, {})
+        body = g.bt(kids(rets[0])[0])
+        res += ["(* muduo/base/Timestamp.h: %s *)" % clean(cxxast.src_text(rets[0], "muduo/base/Timestamp.h")),
+                definition("Timestamp_valid", g, body, ["us"])]
+        val = None
+        for d in cxxast.dump("muduo/base/Timestamp.h", "muduo::Timestamp::Timestamp"):
+            for n in cxxast.walk(d):
+                if n.get("kind") == "CXXConstructorDecl" and not [p for p in kids(n) if p.get("kind") == "ParmVarDecl"] \
+                   and any(c.get("kind") == "CompoundStmt" for c in kids(n)):
+                    for ci in kids(n):
+                        if ci.get("kind") == "CXXCtorInitializer" and kids(ci) and cxxast.strip(kids(ci)[0]).get("kind") == "IntegerLiteral":
+                            val = int(cxxast.strip(kids(ci)[0])["value"])
+        if val is None:
+            raise cxxast.Untranslatable("Timestamp() initialiser not found")
+        res.append("Definition Timestamp_default_us : Z := (%d)." % val)
+        return res
+    attempt("Timestamp_valid", f_valid)
+
+    # ---- TimerQueue::cancelInLoop (C07)
+    def f_cancel():
+        fn = cxxast.function_decl(REL, "TimerQueue::cancelInLoop")
+        cn = Canon(fn)
+        iff = first_if(fn, lambda n: any(m.get("kind") == "CXXDeleteExpr" for m in cxxast.walk(n)))
+        it = "activeTimers_.find(%s)" % KEY_CANCEL
+        g = Guard(cn, {}, {}, {it: ("found", False)})
+        body = g.bt(kids(iff)[0])
+        res = ["(* %s: if (%s) *)" % (REL, clean(cxxast.src_text(kids(iff)[0], REL))),
+               definition("TimerQueue_cancelInLoop_found", g, body, ["found"])]
+        then = cn.stmts(kids(iff)[1])
+        want = ["decl = timers_.erase(Entry(%s->first->expiration(), %s->first))" % (it, it), "delete %s->first" % it,
+                "activeTimers_.erase(%s)" % it]
+        res += boolfact("TimerQueue_cancelInLoop_found_erases_both_deletes", then == want, "cancelInLoop, id found: " + " ;; ".join(then))
+        els = kids(iff)[2] if len(kids(iff)) > 2 else None
+        if els is None or cxxast.strip(els).get("kind") != "IfStmt":
+            raise cxxast.Untranslatable("cancelInLoop: no `else if`")
+        e = cxxast.strip(els)
+        g2 = Guard(cn, {}, {"callingExpiredTimers_": "calling"}, {})
+        body2 = g2.bt(kids(e)[0])
+        res += ["(* %s: else if (%s) *)" % (REL, clean(cxxast.src_text(kids(e)[0], REL))),
+                definition("TimerQueue_cancelInLoop_else_marks", g2, body2, ["calling"])]
+        marks = cn.stmts(kids(e)[1])
+        res += boolfact("TimerQueue_cancelInLoop_marks_canceling", marks == ["cancelingTimers_.insert(%s)" % KEY_CANCEL] and len(kids(e)) == 2,
+                        "cancelInLoop, not found while calling: " + " ;; ".join(marks))
+        return res
+    attempt("TimerQueue_cancelInLoop", f_cancel)
+    return out, msgs
+
+
 def main():
     out = ["(* GENERATED by lib/gen_C06.py from %s -- do not edit *)" % cxxast.REPO,
            "From Coq Require Import ZArith Bool.", "Local Open Scope Z_scope.", ""]
@@ -83,6 +490,14 @@ def main():
         msgs.append("FALLBACK TimerQueue_getExpired_sentry (%s)" % clean(str(e)))
         out.append("(* FALLBACK: sentry not found in getExpired *)")
     out.append("Definition TimerQueue_getExpired_sentry_is_now : bool := %s." % ("true" if ok else "false"))
+    out.append("")
+    out.append("(* ---- guards and structure facts (linked to C06_Model by coq/C06_GenTie.v) *)")
+    try:
+        glines, gmsgs = guard_facts()
+    except Exception as e:  # noqa
+        glines, gmsgs = ["(* FALLBACK guards: %s *)" % clean(str(e))], ["FALLBACK TimerQueue_guards (%s)" % clean(str(e))]
+    out += glines
+    msgs += gmsgs
     txt = "\n".join(out) + "\n"
     path = os.path.join(cxxast.ROOT, "coq/Gen_C06.v")
     old = open(path).read() if os.path.exists(path) else None
